@@ -19,10 +19,17 @@ echo "suite_with_change_exit=$S1 demo_with_change_exit=$D1 demo_without_change_e
 if [ $S1 -ne 0 ] || [ $D1 -eq 0 ] || [ $D0 -ne 0 ]; then echo "MUTANT NOT VALID"; fi
 cd /verif
 export VERIF_EVIDENCE_DIR=/verif/.work/mutant-evidence
-git -C /repo apply $WT/patch.diff || { echo "patch does not apply to /repo"; exit 9; }
+# MUT_SCRATCH=1: run the checks against the scratch worktree itself (GDSL_REPO) instead of patching /repo - needed while a
+# long background run is reading /repo
+if [ -n "${MUT_SCRATCH:-}" ]; then
+  git -C /repo apply --check $WT/patch.diff || { echo "patch does not apply to /repo"; exit 9; }
+  export GDSL_REPO=$WT VERIF_WORK=$WT/.verif-work
+else
+  git -C /repo apply $WT/patch.diff || { echo "patch does not apply to /repo"; exit 9; }
+fi
 for p in "$@"; do
   bin/check $p --tier quick > $OUT/check_$p.log 2>&1; echo "check $p exit=$? : $(grep -c '^VIOLATION' $OUT/check_$p.log) violation lines; $(tail -1 $OUT/check_$p.log | cut -c1-200)"
   grep 'counterexample' $OUT/check_$p.log | head -3 | cut -c1-260
 done
-git -C /repo checkout -- .
+[ -n "${MUT_SCRATCH:-}" ] || git -C /repo checkout -- .
 git -C /repo status --short
